@@ -352,6 +352,13 @@ def touch(b, *a, **k):
     return b
 
 
+def mb_or_np(m, v):
+    """v passed through a recording block function (dask) / unchanged (NumPy)."""
+    if m is np:
+        return v
+    return m.map_blocks(touch, v, dtype=v.dtype, meta=np.empty((0,) * v.ndim, dtype=v.dtype))
+
+
 def touch_chunk(x, axis=None, keepdims=False):
     if getattr(x, "size", 0) > 0:
         TOUCH.append(("userfn", "touch_chunk" + ("-probe" if _synthetic(x) else ""), tuple(x.shape)))
